@@ -414,7 +414,8 @@ func seqCases() [][]seqKid {
 	}
 	// children that together, or alone with their header, are longer than the longest single item: a list's length
 	// field counts elements, not bytes
-	out = append(out, []seqKid{{"B", 9000000}, {"A", 9000000}}, []seqKid{{"A", 1<<24 - 1}}, []seqKid{{"U1", 1<<24 - 1}, {"B", 3}})
+	out = append(out, []seqKid{{"B", 9000000}, {"A", 9000000}}, []seqKid{{"A", 1<<24 - 1}}, []seqKid{{"U1", 1<<24 - 1}, {"B", 3}},
+		[]seqKid{{"B", 11500000}, {"U1", 11500000}, {"BOOLEAN", 11500000}}) // more than 2^25 values in one message
 	return out
 }
 
